@@ -449,3 +449,267 @@ Qed.
 End Final.
 
 End E.
+
+(* ------------------------------------------------------------------ the run *)
+Section E2.
+Variable c : cfgT.
+Variable Lc : list bytes.
+Hypothesis HLc : plains Lc.
+Hypothesis HL : c_layers c = pa Lc.
+Variables Ec bpr gpr : list bytes.
+Hypothesis HEc : plains Ec /\ c_exports c = pa Ec /\ (forall r1 r2, Lc ++ r1 <> Ec ++ r2).
+Hypothesis Hbpr : plains bpr /\ bpr <> [] /\ c_exp_binpkg c = pjoin bpr.
+Hypothesis Hgpr : plains gpr /\ gpr <> [] /\ c_exp_gen c = pjoin gpr.
+
+Definition Links (f0 f1 : fsT) : Prop :=
+  (forall e, In e f1 -> In e f0) /\
+  (forall r nd, plains r -> In (pa (Lc ++ r), nd) f0 -> In (pa (Lc ++ r), nd) f1).
+
+Lemma links_keep e l old f0 : plain old -> l_name l = old ->
+  hs (fun w => Links f0 (w_fs w)) false (remove_export_links e c l) (fun _ => True).
+Proof.
+  intros Po El. unfold remove_export_links. apply hs_mapM_. intros lt Hlt.
+  assert (Hp : exists r, plains r /\ fst lt = pa (Ec ++ r)).
+  { apply (in_map fst) in Hlt. rewrite (export_links_eq c Lc Ec bpr gpr HEc Hbpr Hgpr l old El Po) in Hlt.
+    destruct Hbpr as (B1 & _). destruct Hgpr as (G1 & _).
+    destruct Hlt as [<-|[<-|[]]]; eexists; (split; [|reflexivity]); apply plains_app; (split; [assumption|]);
+      constructor; (exact Po || constructor). }
+  destruct Hp as (r & Pr & ->). apply hs_get_fs_k. intros f.
+  destruct (negb (exists_ f _)); [now apply hs_ret|]. destruct (negb (is_symlink f _)); [apply hs_fail|].
+  unfold fs_remove. apply hs_true, hoare_do_op. intros w w' [H1 H2] _ E. cbn [op_result] in E. unfold on_fres in E.
+  destruct (remove_all (w_fs w) _) as [f'|] eqn:Er; [|discriminate]. injection E as <-. cbn [set_fs w_fs].
+  apply remove_all_shape in Er. subst f'. split.
+  - intros e0 Hin. apply filter_In in Hin as [Hin _]. now apply H1.
+  - intros r0 nd Pr0 Hin. apply filter_In. split; [now apply H2|]. cbn [fst]. apply negb_true_iff.
+    destruct (at_or_under (pa (Ec ++ r)) (pa (Lc ++ r0))) eqn:Ea; [|reflexivity]. exfalso.
+    destruct HEc as (PE & _ & DE).
+    apply at_or_under_pa in Ea as (t & Et); [|apply plains_app; now split|apply plains_app; now split].
+    rewrite <- app_assoc in Et. now apply DE in Et.
+Qed.
+
+Lemma tmpp_vs_cfgp k j : plain k -> plain j -> at_or_under (tmpp Lc k) (cfgp Lc j) = false.
+Proof.
+  intros Pk Pj. destruct (at_or_under (tmpp Lc k) (cfgp Lc j)) eqn:E; [|reflexivity]. exfalso.
+  unfold tmpp, cfgp in E. apply at_or_under_pa in E as (t & Et).
+  - rewrite <- app_assoc in Et. apply app_inv_head in Et. cbn [app] in Et. injection Et as _ Et _. apply (f_equal (@length _)) in Et. vm_compute in Et. discriminate.
+  - apply plains_dirty; [exact HLc|exact Pk|constructor; [apply plain_lcf_tmp|constructor]].
+  - apply plains_dirty; [exact HLc|exact Pj|constructor; [apply plain_lcf|constructor]].
+Qed.
+Lemma tmpp_under_dir k q : plain k -> is_clean_abs q = true -> at_or_under (tmpp Lc k) q = true ->
+  exists r, plains r /\ q = pa (Lc ++ k :: (lcf ++ tmp_suffix) :: r).
+Proof.
+  intros Pk Hq Hau. apply clean_abs_repr in Hq as (qs & Pq & ->). unfold tmpp in Hau.
+  apply at_or_under_pa in Hau as (r & ->); [| |exact Pq].
+  - exists r. rewrite <- app_assoc. split; [|reflexivity]. apply plains_app in Pq. tauto.
+  - apply plains_dirty; [exact HLc|exact Pk|constructor; [apply plain_lcf_tmp|constructor]].
+Qed.
+
+Section Run.
+Variables (f0 f1 : fsT) (old new : bytes).
+Hypothesis Po : plain old.
+Hypothesis Pnw : plain new.
+Hypothesis Hon : old <> new.
+Hypothesis Hc0 : fs_clean f0.
+Hypothesis HLk : Links f0 f1.
+Hypothesis Hfree : forall r m, plains r -> r <> [] -> ~ In (pa (Lc ++ new :: r), m) f1.
+(* no stale temporary file in the directories that are rewritten *)
+Variable K : list bytes.
+Hypothesis HKp : forall k, In k K -> plain k /\ k <> old /\ k <> new.
+Hypothesis NS : forall x, x = old \/ In x K -> forall e0, In e0 f0 -> at_or_under (tmpp Lc x) (fst e0) = false.
+
+Lemma Hc1' : fs_clean f1.
+Proof. intros p m Hin. eapply Hc0. apply (proj1 HLk). exact Hin. Qed.
+
+Lemma no_tmp_in_F2 x : (x = new \/ In x K) -> forall e0, In e0 (mv (lp Lc old) (lp Lc new) f1) ->
+  at_or_under (tmpp Lc x) (fst e0) = false.
+Proof.
+  intros Hx [q nd] Hin. cbn [fst]. destruct (at_or_under (tmpp Lc x) q) eqn:Ea; [|reflexivity]. exfalso.
+  assert (Px : plain x) by (destruct Hx as [->|Hx]; [exact Pnw|now apply HKp]).
+  pose proof (mv_clean c Lc HLc HL old new Po Pnw f1 Hc1' _ _ Hin) as Hq.
+  destruct (tmpp_under_dir x q Px Hq Ea) as (r & Pr & ->).
+  apply (mv_in c Lc HLc HL old new Po Pnw f1 Hc1' Hfree) in Hin as [(H1 & H2 & H3)|(r' & Pr' & E & H3)].
+  - destruct Hx as [->|Hx].
+    + rewrite (at_under_same Lc HLc new _ Pnw) in H2; [discriminate|]. constructor; [apply plain_lcf_tmp|exact Pr].
+    + apply (proj1 HLk) in H3. pose proof (NS x (or_intror Hx) _ H3) as Hn. cbn [fst] in Hn.
+      unfold tmpp in Hn. assert (at_or_under (pa (Lc ++ [x; lcf ++ tmp_suffix])) (pa (Lc ++ x :: (lcf ++ tmp_suffix) :: r)) = true) as Ht; [|rewrite Ht in Hn; discriminate].
+      apply at_or_under_pa.
+      * apply plains_dirty; [exact HLc|exact Px|constructor; [apply plain_lcf_tmp|constructor]].
+      * apply plains_dirty; [exact HLc|exact Px|constructor; [apply plain_lcf_tmp|exact Pr]].
+      * exists r. now rewrite <- app_assoc.
+  - apply pa_inj in E.
+    + apply app_inv_head in E. pose proof (f_equal (@tl _) E) as E2. cbn [tl] in E2. subst r'.
+      apply (proj1 HLk) in H3. pose proof (NS old (or_introl eq_refl) _ H3) as Hn. cbn [fst] in Hn.
+      unfold tmpp in Hn. assert (at_or_under (pa (Lc ++ [old; lcf ++ tmp_suffix])) (pa (Lc ++ old :: (lcf ++ tmp_suffix) :: r)) = true) as Ht; [|rewrite Ht in Hn; discriminate].
+      apply at_or_under_pa.
+      * apply plains_dirty; [exact HLc|exact Po|constructor; [apply plain_lcf_tmp|constructor]].
+      * apply plains_dirty; [exact HLc|exact Po|constructor; [apply plain_lcf_tmp|exact Pr]].
+      * exists r. now rewrite <- app_assoc.
+    + apply plains_dirty; [exact HLc|exact Px|constructor; [apply plain_lcf_tmp|exact Pr]].
+    + now apply plains_dirty.
+Qed.
+
+Lemma no_tmp_in_fold x L : (x = new \/ In x K) -> (forall p X, In (p, X) L -> exists j, plain j /\ p = cfgp Lc j) ->
+  forall e0, In e0 (foldwr L (mv (lp Lc old) (lp Lc new) f1)) -> at_or_under (tmpp Lc x) (fst e0) = false.
+Proof.
+  intros Hx HL0 [q nd] Hin. cbn [fst].
+  assert (Px : plain x) by (destruct Hx as [->|Hx]; [exact Pnw|now apply HKp]).
+  apply In_foldwr in Hin as [Hin|(X & Hin & _)].
+  - exact (no_tmp_in_F2 x Hx _ Hin).
+  - destruct (HL0 _ _ Hin) as (j & Pj & ->). now apply tmpp_vs_cfgp.
+Qed.
+End Run.
+Lemma rename_exact_post f0 e ld old new :
+  fs_clean f0 -> nolink Lc f0 -> closed f0 -> NoDup (map fst f0) -> e_pretend e = false ->
+  (forall l', In l' (read_layer_files c f0) -> l_name l' = old \/ l_base l' = old ->
+     forall e0, In e0 f0 -> at_or_under (tmpp Lc (l_name l')) (fst e0) = false) ->
+  LDI (skel (read_layer_files c f0)) ld -> check_inheritance (read_layer_files c f0) = true ->
+  paths_ok c (ld_map ld) -> cores_ok c f0 (ld_map ld) ->
+  post (fun w => w_fs w = f0) (rename_layer e c ld old new)
+       (fun _ w' => C02.rename_exact c f0 (w_fs w') old new = true).
+Proof.
+  intros Hc0 Hn0 Hcl0 ND Hnp HNS [Hs HW] HCI HPa HCo. unfold rename_layer.
+  pose proof (allreach_gforest _ (check_inh_allreach _ HCI)) as HG. fold (G c f0) in HG.
+  apply post_guard_k. intros G0. apply andb_true_iff in G0 as [G1 G2].
+  apply test_name_need in G1 as (Ho & Lo & l & El). apply test_name_free in G2 as (Hn & Ln & Hfree0). rewrite El.
+  apply post_guard_k. intros _. apply post_guard_k. intros _. cbv zeta. apply post_guard_k. intros _.
+  set (kids := children_in_order e (ld_map ld) old). set (K := map l_name kids).
+  assert (Po : plain old) by now apply legal_plain.
+  assert (Pnw : plain new) by now apply legal_plain.
+  assert (Hon : old <> new) by (intros <-; congruence).
+  assert (Hg : forall x, g_of (ld_map ld) x = G c f0 x) by (intros x; now apply skel_g).
+  pose proof (lm_get_name _ _ _ El) as Eno. pose proof (lm_get_in _ _ _ El) as Hin.
+  assert (Hgo : G c f0 old = Some (l_base l)) by (rewrite <- Hg; apply g_of_some; eauto).
+  assert (Hgn : G c f0 new = None) by (rewrite <- Hg; now apply g_of_none).
+  destruct (G_some_child c Lc HLc HL f0 old _ Hc0 Hn0 Hgo) as (_ & _ & Hdo & Hcbo).
+  assert (HBC : bcons (ld_map ld)) by (apply (bcons_skel (read_layer_files c f0)); [now symmetry|apply rlf_bcons]).
+  assert (Hloop : G c f0 old <> Some old).
+  { intros E. destruct (HG _ _ E) as (k & Hk). assert (greach (G c f0) old (S k)) by (econstructor; eauto).
+    pose proof (greach_det _ _ _ Hk _ H). lia. }
+  assert (HK : forall x, In x K <-> G c f0 x = Some old).
+  { intros x. unfold K. rewrite <- Hg. split.
+    - intros H. apply in_map_iff in H as (k & <- & Hk). apply kids_sound in Hk as [H1 H2].
+      rewrite (HBC k H1). now rewrite H2.
+    - intros H. apply g_of_some in H as (k & Ek & Eb). rewrite <- (lm_get_name _ _ _ Ek).
+      apply kids_complete; [eapply lm_get_in; eauto|exact Eb]. }
+  (* a probed layer and the layer on disk *)
+  assert (Hdisk : forall k, In k (ld_map ld) -> exists l0, In l0 (read_layer_files c f0) /\ l_name l0 = l_name k /\
+            l_base l0 = l_base k /\ l_mounts l0 = l_mounts k /\ l_exports l0 = l_exports k).
+  { intros k Hk. destruct (HCo k Hk) as (l0 & Eld & Ecore). exists l0.
+    unfold core in Ecore. injection Ecore as C1 C2 C3 C4 _.
+    pose proof (load_layer_props _ _ _ _ Eld) as (En & _).
+    split; [|repeat split; congruence]. apply rlf_in. exists (l_name k). split; [|split; [|exact Eld]].
+    - assert (Hgk : G c f0 (l_name k) = Some (l_base k)) by (rewrite <- Hg; now apply HBC).
+      unfold G in Hgk. apply g_of_some in Hgk as (l1 & E1 & _). rewrite rlf_get in E1.
+      destruct (memb (l_name k) (children f0 (c_layers c))) eqn:Em; [now apply memb_In|discriminate].
+    - assert (Hgk : G c f0 (l_name k) = Some (l_base k)) by (rewrite <- Hg; now apply HBC).
+      now destruct (G_some_child c Lc HLc HL f0 _ _ Hc0 Hn0 Hgk). }
+  assert (Hkids : forall k, In k kids ->
+    plain (l_name k) /\ l_name k <> old /\ l_name k <> new /\ mounts_ok k /\
+    exists l0, In l0 (read_layer_files c f0) /\ l_name l0 = l_name k /\ l_base l0 = old
+               /\ l_mounts l0 = l_mounts k /\ l_exports l0 = l_exports k).
+  { intros k Hk. pose proof Hk as Hk'. apply kids_sound in Hk' as [Hkm Hkb].
+    assert (HkK : In (l_name k) K) by (unfold K; now apply in_map).
+    pose proof (proj1 (HK _) HkK) as Hgk. destruct (G_some_child c Lc HLc HL f0 _ _ Hc0 Hn0 Hgk) as (Pk & _).
+    split; [exact Pk|]. split; [intros E; rewrite E in Hgk; congruence|]. split; [intros E; rewrite E in Hgk; congruence|].
+    split; [now apply HW|]. destruct (Hdisk k Hkm) as (l0 & H0 & N0 & B0 & M1 & M2). exists l0. repeat split; congruence. }
+  assert (Hkids_all : forall l0, In l0 (read_layer_files c f0) -> l_base l0 = old -> In (l_name l0) K).
+  { intros l0 H0 B0. apply HK. unfold G. rewrite (rlf_bcons c f0 l0 H0). now rewrite B0. }
+  assert (Hl : mounts_ok l /\ exists l0, In l0 (read_layer_files c f0) /\ l_name l0 = old /\ l_base l0 = l_base l
+                                       /\ l_mounts l0 = l_mounts l /\ l_exports l0 = l_exports l).
+  { split; [now apply HW|]. destruct (Hdisk l Hin) as (l0 & H0 & N0 & B0 & M1 & M2). exists l0. repeat split; congruence. }
+  assert (Hnew_free : forall l', In l' (read_layer_files c f0) -> l_name l' <> new).
+  { intros l' Hl' E. pose proof (rlf_bcons c f0 l' Hl') as Hb. fold (G c f0) in Hb. rewrite E in Hb. congruence. }
+  assert (HKp : forall k, In k K -> plain k /\ k <> old /\ k <> new).
+  { intros k Hk. unfold K in Hk. apply in_map_iff in Hk as (k0 & <- & Hk0). destruct (Hkids k0 Hk0) as (H1 & H2 & H3 & _). auto. }
+  assert (NS : forall x, x = old \/ In x K -> forall e0, In e0 f0 -> at_or_under (tmpp Lc x) (fst e0) = false).
+  { intros x Hx. destruct Hx as [->|Hx].
+    - destruct Hl as (_ & l0 & H0 & N0 & _). rewrite <- N0. apply (HNS l0 H0). now left.
+    - unfold K in Hx. apply in_map_iff in Hx as (k0 & <- & Hk0). destruct (Hkids k0 Hk0) as (_ & _ & _ & _ & l0 & H0 & N0 & B0 & _).
+      rewrite <- N0. apply (HNS l0 H0). now right. }
+  (* 1. export links *)
+  eapply post_bind with (Q := fun _ w => Links f0 (w_fs w)).
+  { eapply post_conseq; [apply post_of_hs, (links_keep e l old f0 Po Eno)| |]; cbv beta; auto.
+    intros w ->. split; auto. }
+  intros u1. cbv beta.
+  (* 2. the directory *)
+  rewrite (HPa l Hin), Eno, (layer_path_eq c Lc HLc HL old Po), (layer_path_eq c Lc HLc HL new Pnw).
+  eapply post_bind with (Q := fun _ w => exists f1, Links f0 f1 /\
+      (forall r m, plains r -> r <> [] -> ~ In (pa (Lc ++ new :: r), m) f1) /\
+      fs_get f1 (lp Lc old) = Some Dir /\ (forall nd, In (lp Lc new, nd) f1 -> nd = Dir) /\
+      w_fs w = mv (lp Lc old) (lp Lc new) f1).
+  { apply post_fix_world. intros w1 HL1. unfold fs_rename. apply post_do_op; [exact Hnp|].
+    intros w w' -> E. cbn [op_result] in E. unfold on_fres in E.
+    destruct (rename (w_fs w1) _ _) as [f'|] eqn:Er; [|discriminate]. injection E as <-. cbn [set_fs w_fs].
+    set (f1 := w_fs w1) in *. destruct HL1 as [L1 L2].
+    assert (PO : plains (Lc ++ [old])) by now apply plains_lp.
+    assert (PN : plains (Lc ++ [new])) by now apply plains_lp.
+    assert (Hget : forall r, plains r -> fs_get f1 (pa (Lc ++ r)) = fs_get f0 (pa (Lc ++ r))).
+    { intros r Pr. destruct (fs_get f1 (pa (Lc ++ r))) as [m|] eqn:E1.
+      - apply fs_get_In, L1 in E1. symmetry. now apply nodup_fs_get.
+      - destruct (fs_get f0 (pa (Lc ++ r))) as [m|] eqn:E0; [|reflexivity]. exfalso.
+        apply fs_get_In in E0. apply (L2 r m Pr) in E0. apply (proj1 (fs_get_None _ _) E1 m E0). }
+    apply rename_shape in Er as [[E _]|(na & Ea & Eu & -> & Hside)].
+    { exfalso. unfold lp in E. apply pa_inj in E; auto. apply app_inv_head in E. injection E as E. congruence. }
+    assert (Hold_dir : fs_get f1 (lp Lc old) = Some Dir).
+    { unfold lp. rewrite (Hget [old]) by (constructor; [exact Po|constructor]).
+      unfold cfgbase in Hcbo. destruct (fs_get f0 (cfgp Lc old)) as [m|] eqn:Em; [|discriminate]. apply fs_get_In in Em.
+      assert (Hnr : cfgp Lc old <> root).
+      { unfold cfgp. intros E. apply (pa_root_iff (Lc ++ [old; lcf])) in E; [destruct Lc; discriminate|].
+        apply plains_dirty; [exact HLc|exact Po|apply Plcf]. }
+      pose proof (Hcl0 _ _ Em Hnr) as Hd. unfold cfgp in Hd. change (Lc ++ [old; lcf]) with (Lc ++ [old] ++ [lcf]) in Hd.
+      rewrite app_assoc, pathdir_pa in Hd; [exact Hd|exact PO|apply plain_lcf]. }
+    assert (Hna : na = Dir) by congruence.
+    exists f1. split; [now split|]. split; [|split; [exact Hold_dir|split; [|reflexivity]]].
+    - intros r m Pr Hr Hin1. unfold lp in Hside. rewrite (Hget [new]) in Hside by (constructor; [exact Pnw|constructor]).
+      destruct (fs_get f0 (pa (Lc ++ [new]))) as [[| |]|] eqn:En.
+      + destruct Hside as [_ Hh]. unfold has_children in Hh.
+        assert (existsb (fun e0 => under (pa (Lc ++ [new])) (fst e0)) f1 = true); [|congruence].
+        apply existsb_exists. exists (pa (Lc ++ new :: r), m). split; [exact Hin1|]. cbn [fst].
+        apply under_pa; [exact PN|now apply plains_dirty|]. exists r. split; [exact Hr|now rewrite <- app_assoc].
+      + subst na. now apply Hside.
+      + subst na. now apply Hside.
+      + apply L1 in Hin1. change (Lc ++ new :: r) with (Lc ++ [new] ++ r) in Hin1. rewrite app_assoc in Hin1.
+        pose proof (closed_none f0 (Lc ++ [new]) Hcl0 PN En r Pr) as Hnone.
+        apply (proj1 (fs_get_None _ _) Hnone m Hin1).
+    - intros nd Hin1. pose proof Hin1 as Hin0. apply L1 in Hin0.
+      unfold lp in Hside, Hin0. rewrite (Hget [new]) in Hside by (constructor; [exact Pnw|constructor]).
+      rewrite (nodup_fs_get f0 _ nd ND Hin0) in Hside. destruct nd; [reflexivity| |]; subst na; now destruct Hside. }
+  intros u2. cbv beta.
+  (* 3. the children *)
+  apply post_fix_world. intros w2 (f1 & HLk & Hfr & HAd & HBd & Ew2).
+  assert (HKL : forall done p X, In (p, X) (KL Lc new done) -> (forall k, In k done -> In k kids) -> exists j, plain j /\ p = cfgp Lc j).
+  { intros done p X Hp Hd. apply (KL_in Lc new done) in Hp as (k & Hk & -> & _). exists (l_name k). split; [|reflexivity].
+    now destruct (Hkids k (Hd k Hk)). }
+  eapply post_bind with (Q := fun _ w => w_fs w = foldwr (KL Lc new kids) (mv (lp Lc old) (lp Lc new) f1)).
+  { eapply post_conseq;
+      [apply (post_mapM_ (fun done w => w_fs w = foldwr (KL Lc new done) (mv (lp Lc old) (lp Lc new) f1))
+                (fun k => write_layerfile e (set_base k new)) kids)| |]; cbv beta; auto.
+    2:{ intros w ->. exact Ew2. }
+    intros done x rest Ek. apply post_fix_world. intros w3 Ew3.
+    assert (Hxk : In x kids) by (fold kids; rewrite Ek; apply in_or_app; right; now left).
+    assert (Hdk : forall k, In k done -> In k kids) by (intros k Hk; fold kids; rewrite Ek; apply in_or_app; now left).
+    destruct (Hkids x Hxk) as (Px & Hxo & Hxn & _). destruct (kids_sound _ _ _ _ Hxk) as [Hxm _].
+    eapply post_conseq; [apply (write_cfg_exact_gen c Lc HLc HL e (set_base x new) (l_name x) (w_fs w3) Hnp Px)| |]; cbv beta.
+    - cbn [set_base l_path]. apply (HPa x Hxm).
+    - rewrite Ew3. apply (no_tmp_in_fold f0 f1 old new Po Pnw Hc0 HLk Hfr K HKp NS (l_name x)).
+      + right. unfold K. now apply in_map.
+      + intros p X Hp. now apply (HKL done p X Hp).
+    - intros w ->. reflexivity.
+    - intros _ w ->. rewrite Ew3. unfold KL. rewrite map_app. cbn [map]. rewrite foldwr_snoc. reflexivity. }
+  intros u3. cbv beta.
+  (* 4. the renamed layer itself *)
+  eapply post_bind; [apply post_renormalize|]. intros ld'. cbv beta.
+  eapply post_bind with (Q := fun _ w => w_fs w = F4 Lc old new f1 kids l).
+  { apply post_fix_world. intros w4 Ew4.
+    eapply post_conseq; [apply (write_cfg_exact_gen c Lc HLc HL e (set_name_path l new (lp Lc new)) new (w_fs w4) Hnp Pnw)| |]; cbv beta.
+    - cbn [set_name_path l_path]. now rewrite (layer_path_eq c Lc HLc HL new Pnw).
+    - rewrite Ew4. apply (no_tmp_in_fold f0 f1 old new Po Pnw Hc0 HLk Hfr K HKp NS new); [now left|].
+      intros p X Hp. now apply (HKL kids p X Hp).
+    - intros w ->. reflexivity.
+    - intros _ w ->. rewrite Ew4. reflexivity. }
+  intros u4. cbv beta. apply post_ret. intros w ->.
+  destruct HLk as [L1 L2].
+  apply (rename_exact_final c Lc HLc HL old new Po Pnw Hon f0 f1 kids l ND Hc0 Hn0 L1 L2 Hfr HAd HBd Hnew_free
+           (legal_tok new Ln Hn) Hkids Hkids_all Hl).
+Qed.
+End E2.
